@@ -92,6 +92,17 @@ Theorem C02_set_afc3_noop : forall p, is_pkt p -> Iso.afc (Iso.hdr_of p) = 3 -> 
 Proof. exact set_afc3_noop. Qed.
 Print Assumptions C02_set_afc3_noop.
 
+(* 10 -> 11 on an adaptation-field-only packet: one stuffing byte is given up and the last byte of the
+   packet becomes the payload; without stuffing the call fails with ErrAdaptationFieldTooLarge AFTER having set
+   the control bits (the packet is then control 11 with length 183, i.e. an empty payload) *)
+Theorem C02_set_afc3_on_af_only : forall h a st, let l := Iso.mkLpkt h (Iso.AF a st) [] in Iso.wf_lpkt l ->
+  SetAdaptationFieldControl (Iso.ser_pkt l) 3 =
+  if nonempty_b st
+  then (Iso.ser_pkt (Iso.mkLpkt (Iso.with_afc h 3) (Iso.AF a (repeatN 255 (len st - 1))) (dropN (len st - 1) st)), None)
+  else (Iso.ser_pkt (Iso.mkLpkt (Iso.with_afc h 3) (Iso.AF a []) []), Some E.AdaptationFieldTooLarge).
+Proof. exact set_afc3_on_af_only. Qed.
+Print Assumptions C02_set_afc3_on_af_only.
+
 (* ---- creation helpers ---- *)
 (* the first min(n,184) payload bytes are the requested ones (for n < 2 the rest of the payload is
    00 7f 00..: WithContinuousAF writes byte 5 although no adaptation field is flagged, see findings) *)
